@@ -1819,19 +1819,10 @@ error:
 	return STATE_ERROR;
 }
 
-DLLIMPORT int cfg_parse_fp(cfg_t *cfg, FILE *fp)
+/* Parse the stream under the name cfg->filename carries */
+static int cfg_parse_stream(cfg_t *cfg, FILE *fp)
 {
 	int ret, depth;
-
-	if (!cfg || !fp) {
-		errno = EINVAL;
-		return CFG_PARSE_ERROR;
-	}
-
-	if (!cfg->filename)
-		cfg->filename = strdup("FILE");
-	if (!cfg->filename)
-		return CFG_PARSE_ERROR;
 
 	cfg->line = 1;
 	depth = cfg_lexer_include_depth();
@@ -1844,6 +1835,26 @@ DLLIMPORT int cfg_parse_fp(cfg_t *cfg, FILE *fp)
 		return CFG_PARSE_ERROR;
 
 	return CFG_SUCCESS;
+}
+
+DLLIMPORT int cfg_parse_fp(cfg_t *cfg, FILE *fp)
+{
+	char *fn;
+
+	if (!cfg || !fp) {
+		errno = EINVAL;
+		return CFG_PARSE_ERROR;
+	}
+
+	/* a stream has no name; not the one an earlier parse left behind either */
+	fn = strdup("FILE");
+	if (!fn)
+		return CFG_PARSE_ERROR;
+
+	free(cfg->filename);
+	cfg->filename = fn;
+
+	return cfg_parse_stream(cfg, fp);
 }
 
 static char *cfg_make_fullpath(const char *dir, const char *file)
@@ -1952,7 +1963,7 @@ DLLIMPORT int cfg_parse(cfg_t *cfg, const char *filename)
 	}
 #endif
 
-	ret = cfg_parse_fp(cfg, fp);
+	ret = cfg_parse_stream(cfg, fp);
 	fclose(fp);
 
 	return ret;
@@ -1991,7 +2002,7 @@ DLLIMPORT int cfg_parse_buf(cfg_t *cfg, const char *buf)
 		return CFG_SUCCESS;
 	}
 
-	ret = cfg_parse_fp(cfg, fp);
+	ret = cfg_parse_stream(cfg, fp);
 	fclose(fp);
 
 	return ret;
